@@ -11,7 +11,7 @@ META = dict(
                "C10_db_insert_alias / C10_db_insert_new_alias / C10_db_remove_alias / C10_db_remove_node (DbImpl functions: on lookups insert_alias is IndexedMap::insert, "
                "bijection kept, aliased ids stay existing nodes, a removed node is no longer named), C10_resolve_select_agree, C10_empty_alias_rejected, "
                "C10_empty_alias_first_no_effect, C10_rejected_insert_aliases_no_effect + C10_empty_alias_no_effect (fixed revision: a rejected InsertAliases query - empty alias / edge id / unknown id at ANY position - is rolled back to a state with the same graph, values, indexes and an alias map answering every lookup as before; proved through the undo commands of insert_alias), C10_edge_alias_rejected (fixed revision), C10_pinned_refuted and C10_steal_pinned_refuted (vm_compute witnesses of the two repaired defects: alias on an edge; alias lost by a rolled-back steal). "
-               "HISTORY LEVEL (PARTIAL, conditional): C10_step, C10_transaction_partial and C10_history_partial show that the joint invariant Inv (graph well-formed [C08] + alias map one-to-one on existing nodes + no duplicate keys + exact indexes) is kept by every mutating query whatever its outcome, at every state inside a running transaction, and after every history from the empty database in which no query fails; they assume `traversal_live rv_fixed` (breadth/depth-first and path searches return only existing elements; index searches and element scans are discharged) and do not cover the state after the rollback of a failing query (needs C13). "
+               "HISTORY LEVEL (UNCONDITIONAL): C10_step_inv, C10_transaction and C10_history show that the joint invariant Inv (graph well-formed [C08] + alias map one-to-one on existing nodes + no duplicate keys + exact indexes) is kept by every mutating query whatever its outcome, at every state inside a running transaction, and after every history from the empty database in which no query fails, for the revision of /repo and histories whose insert lists have distinct keys (query_ok, C09's quantifier). The former hypothesis `traversal_live rv_fixed` is DISCHARGED: theories/TraversalLiveProofs.v proves from the C14 / C17 / C18 developments, under the graph invariant wf, that breadth/depth-first searches (any conditions, any limit/offset) and path searches from existing origins return only existing elements, hence every id returned by any search exists (C10_traversal_live); the old hypothesis was false as literally stated (its path clause did not ask for an existing origin: C10_traversal_live_refuted), so the old *_partial theorems were vacuous and are kept for the record only. States after the ROLLBACK of failing queries / transactions are covered by C13_history_atomic / C13_history_invariant (coq/Props/C13.v): Inv holds at every point of every history of queries and transactions, failing or not (same query_ok quantifier, capacity <= 2^63). C10_no_empty_alias_step (every query of every kind, whatever its outcome, from ANY state, every revision with fix_empty_alias on: the empty alias still does not resolve) and C10_history_no_empty_alias (after every history of queries and transactions from the empty database, failing ones and their rollback included, the empty alias does not resolve and no element is named by the empty alias; same two hypotheses). "
                               "database and on the extracted model and comparing every query result and periodic full dumps.",
     design_ref="DESIGN.md §5 C10",
     level_note="Trusted: Coq kernel, extraction (ExtrOcamlBasic), OCaml driver, Rust harness/generators. Theorems are about the model (theories/DbModel.v etc.); "
